@@ -66,8 +66,12 @@ static void scenario(const vh::Json& sc, vh::Out& out, vh::Rng& rng, const vh::A
         if (via_flow) {
             flow.enable_ack_tracking();
             // the flow's own SYN+ACK initialises its tracker with the acknowledged ISN
-            TCP syn(80, 4000); syn.flags(TCP::SYN | TCP::ACK); syn.seq(999); syn.ack_seq(isn);
-            IP p = IP("10.0.0.2", "10.0.0.1") / syn; flow.process_packet(p);
+            // ... either as the passive side (SYN|ACK acknowledging the peer's ISN) or as the active side (a SYN that acknowledges nothing,
+            // then the ACK that completes the handshake and acknowledges the peer's ISN for the first time)
+            if (rng.coin()) { TCP syn(80, 4000); syn.flags(TCP::SYN | TCP::ACK); syn.seq(999); syn.ack_seq(isn);
+                IP p = IP("10.0.0.2", "10.0.0.1") / syn; flow.process_packet(p); }
+            else { TCP syn(80, 4000); syn.flags(TCP::SYN); syn.seq(999); syn.ack_seq(0); IP p = IP("10.0.0.2", "10.0.0.1") / syn; flow.process_packet(p);
+                TCP ack(80, 4000); ack.flags(TCP::ACK); ack.seq(1000); ack.ack_seq(isn); IP q = IP("10.0.0.2", "10.0.0.1") / ack; flow.process_packet(q); }
             flow.ack_tracker().use_sack();
         }
         // through a Flow: in half of the runs the acknowledging endpoint half-closes somewhere in the history (one of its segments carries
